@@ -12,7 +12,7 @@
    cursor one column short.  The erase and sequence theorems therefore come as _partial
    (everything outside that trigger class, [erase_trigger] / [rv_edge_excl]) and _refuted. *)
 From Coq Require Import ZArith List Bool.
-From Tickit Require Import Csi CsiProofs VT TermPenDefs TermPenSpec XtermDefs XtermSpec XtermProofs XtermBytes.
+From Tickit Require Import Csi CsiProofs VT TermPenDefs TermPenSpec XtermDefs XtermSpec XtermProofs XtermBytes TermApiDefs TermApiSpec TermApiProofs VTProofs.
 Import ListNotations.
 Local Open Scope Z_scope.
 
@@ -123,6 +123,65 @@ Theorem C09_bytes : forall t q v t' ret ts, in_range q v -> req_pen_ok q -> pen_
   Forall wf_token ts /\ vt_run_bytes (render ts) v = vt_run ts v.
 Proof. exact req_bytes_wf. Qed.
 Print Assumptions C09_bytes.
+
+(* ---- soundness of the ORACLE the correspondence check runs on the implementation's bytes.  For speed the
+   extracted walk re-tabulates the grid after every request ([vt_freeze]); stepping commutes with that
+   up to agreement on the screen ([vt_equiv]; needs a well-formed screen [vt_wf] and the non-negative
+   parameters the lexer always produces), the checkers cannot tell the difference, so the oracle's verdict
+   is the verdict of the same walk on the VT specification itself ([spec_walk], no freeze) ... *)
+Theorem C09_step_equiv : forall v w t, vt_wf v -> vt_equiv v w -> tok_nonneg t ->
+  vt_equiv (vt_step v t) (vt_step w t).
+Proof. exact step_equiv. Qed.
+Print Assumptions C09_step_equiv.
+
+Theorem C09_freeze_equiv : forall v, vt_equiv v (vt_freeze v).
+Proof. exact freeze_equiv_strong. Qed.
+Print Assumptions C09_freeze_equiv.
+
+Theorem C09_oracle_sound : forall obs i v w, vt_wf v -> vt_equiv v w ->
+  oracle_walk i w obs = spec_walk i v obs.
+Proof. exact oracle_walk_sound. Qed.
+Print Assumptions C09_oracle_sound.
+
+(* ... and an OK verdict of the driver's actual call (start bytes, test pattern, frozen) says: every
+   observation was judged in the state reached by running all earlier bytes through the pure VT, was in
+   range there and had the direct effect of its request *)
+Theorem C09_oracle_ok : forall L C start obs n, 0 < L -> 0 < C ->
+  let v0 := with_pattern (vt_run_bytes start (vt_init L C)) in
+  oracle_walk O (vt_freeze v0) obs = VOk n -> walk_ok v0 obs /\ n = length obs.
+Proof. exact oracle_start_ok. Qed.
+Print Assumptions C09_oracle_ok.
+
+(* ---- the same at the level of the PUBLIC API of term.c (TermApiDefs.v: tickit_term_goto / move /
+   print / printn / erasech / clear / scrollrect / setpen / chpen / flush / set_output_buffer as written
+   there).  A call is the driver request it stands for -- except printn with length 0, where write_str's
+   "0 means strlen" writes the whole string (recorded deviation, root cause DESIGN section 11 #3) *)
+Theorem C09_api_step_req : forall t a q, req_of_api a = Some q -> api_args_okb a = true ->
+  printn_trigger a = false ->
+  api_step t a = match drv_req t q with
+                 | Some (t', ret, ts) => Some (t', ts, result_of a ret)
+                 | None => None
+                 end.
+Proof. exact api_step_req. Qed.
+Print Assumptions C09_api_step_req.
+
+(* sequences of calls, by induction: every drawing / pen call whose request is in range (and outside
+   the two recorded trigger classes, [api_excl]) has the request's direct effect; flush,
+   set_output_buffer and getctl write nothing *)
+Theorem C09_api_sequence_partial : forall l t v, vt_ok v -> SInv t v -> Forall api_pen_ok l ->
+  api_seq_ok t v l.
+Proof. exact api_sequence_partial. Qed.
+Print Assumptions C09_api_sequence_partial.
+
+(* FULL statement (false): [api_seq_ok] without [api_excl] -- witness for the printn deviation *)
+Theorem C09_printn_zero_refuted :
+  let v := vt_run xt_start (vt_init 2 5) in
+  let t := mkTerm xdrv_new true empty_pen 2 5 in
+  vt_ok v /\ SInv t v /\ in_range (RPrint []) v /\ printn_trigger (APrintn [65; 66] 0) = true /\
+  exists ts, api_step t (APrintn [65; 66] 0) = Some (t, ts, None) /\
+             ~ effect_ok (RPrint []) true (match ts with [] => true | _ => false end) v (vt_run ts v).
+Proof. exact printn_zero_refuted. Qed.
+Print Assumptions C09_printn_zero_refuted.
 
 (* non-vacuity: a 4x5 patterned screen, a DECSLRM-capable driver; scrolling the 2x3 rectangle
    at (1,1) by (1,-1) is in range, succeeds with a non-empty token list, and the cell at (1,2)
